@@ -86,6 +86,16 @@ def place_gaps(rng, n, k, how, idx, protect_edges=True):
         if rest > 0:
             others = np.setdiff1d(np.arange(lo, hi), take)
             m[rng.choice(others, size=rest, replace=False)] = True
+    elif how == "month_threshold":
+        # a calendar month lying completely inside the span, with just under / just over 10% of its rows missing (k is ignored)
+        ym = idx.year.values * 12 + idx.month.values
+        full = [g for g in np.unique(ym) if (ym == g).sum() >= 28 and ym[0] != g and ym[-1] != g]
+        if full:
+            g = int(rng.choice(full))
+            cand = np.flatnonzero(ym == g)
+            n_m = len(cand)
+            kk = int(np.floor(0.1 * n_m)) + int(rng.choice([0, 1, 1]))
+            m[rng.choice(cand, size=kk, replace=False)] = True
     elif how == "run":
         a = int(rng.integers(lo, max(lo + 1, hi - k)))
         m[a:a + k] = True
@@ -109,6 +119,8 @@ def gen_dataset(rng, spec):
     fam, role, tz = spec["family"], spec["role"], spec["tz"]
     n = spec["n_days"]
     start = pd.Timestamp("2018-01-01") + pd.Timedelta(days=int(rng.integers(0, 365)))
+    if "month_threshold" in (spec.get("how_temp"), spec.get("how_usage")) and rng.random() < 0.6:
+        start = pd.Timestamp("2019-03-01") + pd.Timedelta(days=int(rng.integers(0, 300)))          # spans that contain the leap February of 2020
     idx = pd.date_range(start.tz_localize(tz), periods=n, freq="D") if fam != "x" else None
     T = np.round(daily_weather(rng, idx), 2)
     y = np.round(20 + 1.0 * np.maximum(55 - T, 0) + 0.6 * np.maximum(T - 68, 0) + rng.normal(0, 1, n), 3)
@@ -258,6 +270,21 @@ def run_hourly(spec, rng, keys):
         g[mg[pos]] = np.nan
         df["ghi"] = g
         ghi_ok = np.isfinite(g)
+    if spec.get("hour_gap_month"):
+        # hours missing in one complete month, just under / over 10% of its hours
+        ym = hidx.year.values * 12 + hidx.month.values
+        full = [g for g in np.unique(ym) if (ym == g).sum() >= 28 * 24 and ym[0] != g and ym[-1] != g]
+        g = int(rng.choice(full))
+        cand = np.flatnonzero(ym == g)
+        kk = int(np.floor(0.1 * len(cand))) + int(rng.choice([-1, 0, 1, 2, 3]))
+        col = "temperature" if spec["hour_gap_month"] == "temperature" or role != "baseline" else spec["hour_gap_month"]
+        sel = rng.choice(cand, size=kk, replace=False)
+        if col == "temperature":
+            hT[sel] = np.nan
+            df["temperature"] = hT
+        else:
+            hy[sel] = np.nan
+            df["observed"] = hy
     usage_supplied = not spec.get("no_usage")
     if not usage_supplied:
         df = df.drop(columns=["observed"])
@@ -353,7 +380,7 @@ def gen_cases(tier, seed):
                 return max(0, kstar + int(rng.choice([-1, 0, 1])))
             return int(rng.integers(1, 80))
         ku, kt = pick(), pick()
-        hows = ["random", "one_month", "run"] + (["leading", "trailing"] if entry == "frame" else [])
+        hows = ["random", "one_month", "run", "month_threshold", "month_threshold"] + (["leading", "trailing"] if entry == "frame" else [])
         spec = dict(kind="daily", family="daily", role=role, tz=tz, n_days=n, entry=entry, k_usage=ku if role == "baseline" else 0, k_temp=kt,
                     how_usage=str(rng.choice(hows)), how_temp=str(rng.choice(hows)), same_days=bool(rng.random() < 0.2),
                     gas=bool(rng.random() < 0.3), n=i)
@@ -379,6 +406,8 @@ def gen_cases(tier, seed):
                           k_temp=int(rng.choice([0, 4, 30, 45])), how_usage=str(rng.choice(["random", "one_month", "run"])),
                           how_temp=str(rng.choice(["random", "one_month", "run"])), gas=bool(rng.random() < 0.3), ghi=bool(rng.random() < 0.4),
                           k_ghi=int(rng.choice([0, 2, 6])), no_usage=bool(role == "reporting" and rng.random() < 0.5), n=10000 + i, timeout=1800))
+        if i % 2:
+            cases[-1].update(k_usage=0, k_temp=0, hour_gap_month=["temperature", "observed"][(i // 2) % 2])
     nb = 16 if q else 200
     for i in range(nb):
         tz = str(rng.choice(NO_DST + DST))
